@@ -57,7 +57,23 @@ func (r *renderer) refName(ref Ref) string {
 	if p := r.prefixFor(ref.Mod); p != "" {
 		return p + ":" + ref.Name
 	}
+	if r.m.OwnPrefix != 0 && ownPrefixed(r.m.OwnPrefix, ref.Name) {
+		// a local definition may also be written with the module's own prefix
+		return r.m.Prefix + ":" + ref.Name
+	}
 	return ref.Name
+}
+
+// ownPrefixed decides (as a function of the module's knob and the name) whether
+// references to a local definition are written with the own prefix.
+func ownPrefixed(knob uint64, name string) bool {
+	h := knob ^ 0xcbf29ce484222325
+	for i := 0; i < len(name); i++ {
+		h ^= uint64(name[i])
+		h *= 0x100000001b3
+	}
+	h ^= h >> 29
+	return h&1 == 0
 }
 
 // Imports computes the set of foreign owner modules the text of m refers to.
@@ -83,6 +99,9 @@ func Imports(s *Scenario, m *Mod) []string {
 			return
 		}
 		add(t.Ref.Mod)
+		if len(t.Posix) > 0 {
+			add(PosixModule)
+		}
 		if t.Base != nil {
 			add(t.Base.Mod)
 		}
@@ -284,7 +303,7 @@ func (r *renderer) typedef(ind int, td *Typedef) {
 
 func (r *renderer) typ(ind int, t *Type) {
 	name := r.refName(t.Ref)
-	simple := t.Range == "" && t.Length == "" && len(t.Patterns) == 0 && len(t.Enums) == 0 && len(t.Bits) == 0 && t.Path == "" && t.Base == nil && t.FractionDigits == 0 && len(t.Union) == 0
+	simple := t.Range == "" && t.Length == "" && len(t.Patterns) == 0 && len(t.Posix) == 0 && len(t.Enums) == 0 && len(t.Bits) == 0 && t.Path == "" && t.Base == nil && t.FractionDigits == 0 && len(t.Union) == 0
 	if simple {
 		r.line(ind, "type %s;", name)
 		return
@@ -301,6 +320,9 @@ func (r *renderer) typ(ind int, t *Type) {
 	}
 	for _, p := range t.Patterns {
 		r.line(ind+1, "pattern %s;", q(p))
+	}
+	for _, p := range t.Posix {
+		r.line(ind+1, "%s:posix-pattern %s;", r.prefixFor(PosixModule), q(p))
 	}
 	for _, e := range t.Enums {
 		if e.Value != nil {
